@@ -227,6 +227,50 @@ def ranges(ck, mod, tier, parsed):
     ck.bounds['RangeParser'] = 'begin/stride/end in [-%d,%d] (symbolic integers through placeholder tokens), forms %s, iteration cap %d' % (R, R, [f for f, _ in forms], CAP)
     return found
 
+def index_vectors(ck, mod, tier, parsed):
+    """IndexParser::CreateIndexVector: the result is exactly the sorted, duplicate-free set the index string denotes"""
+    R = 4 if tier == 'quick' else 6; TO = 60; found = []
+    forms = ['@0 @1', '@0:@1', '@0:@1 @2', '@0 @1:@2', '@0:@1 @2:@3'] if tier == 'thorough' else ['@0 @1', '@0:@1', '@0:@1 @2', '@0:@1 @2:@3']
+    for text in forms:
+        nph = len(re.findall(r'@\d', text)); xs = [z3.Int('x%d' % i) for i in range(nph)]
+        M = models.all_models()
+        def conv(it, a):
+            this = a[0]; vp = it.load(Ptr(this.obj, this.off + 16), 8); b = it.load(Ptr(this.obj, this.off + 24), 8); e = it.load(Ptr(this.obj, this.off + 32), 8)
+            txt = bytes(it.load(Ptr(b.obj, b.off + i), 1) & 0xff for i in range(e.off - b.off))
+            mm = re.fullmatch(rb'@(\d+)', txt)
+            if mm: it.store(vp, xs[int(mm.group(1))], 8); return 1
+            if re.fullmatch(rb'\d+', txt): it.store(vp, int(txt), 8); return 1
+            return 0
+        M['re:^@_ZN5boost6detail18lcast_ret_unsignedISt11char_traitsIcEmcE7convertEv'] = conv
+        M['@isspace'] = lambda it, a: int(chr(a[0] & 0xff).isspace()); M['@ispunct'] = lambda it, a: 0
+        CAP = 4 * (R + 1)
+        def body(it, text=text):
+            for x in xs: it.assume(z3.And(x >= 0, x <= R))
+            tp = it.alloc(len(text) + 1, 'text')
+            for i, c in enumerate(text.encode() + b'\0'): it.store(Ptr(tp.obj, i), c, 1)
+            out = it.alloc(8 * CAP, 'out'); n = symx.sgn64(it.call('@h_index_vec', [tp, out, CAP]))
+            return n, [it.load(Ptr(out.obj, 8 * i), 8) for i in range(max(0, n))]
+        res, st = explore(mod, M, body, parsed=parsed, max_paths=20000); ck.stubs |= st['models_used'] | {'boost lcast_ret_unsigned::convert: placeholder token -> symbolic non-negative integer'}
+        # denoted set
+        toks = text.split(); k = 0; den = []
+        for t in toks:
+            if ':' in t: den.append(('range', xs[k], xs[k + 1])); k += 2
+            else: den.append(('single', xs[k])); k += 1
+        def denoted(v): return z3.Or([(d[1] == v) if d[0] == 'single' else z3.And(d[1] <= v, v <= d[2]) for d in den])
+        q = []
+        for it, (n, r) in res:
+            if n < 0: q.append((list(it.pc), [])); continue          # no rejection/overflow may be reachable for well-formed input
+            r = [x if symx.is_sym(x) else z3.IntVal(symx.sgn64(x)) for x in r]
+            goal = [r[i] < r[i + 1] for i in range(n - 1)] + [z3.Or([x == v for x in r] or [z3.BoolVal(False)]) == denoted(v) for v in range(R + 1)] + [z3.And(x >= 0, x <= R) for x in r]
+            q.append((list(it.pc), [z3.Not(z3.And(goal))]))
+        out = smt.parallel_check([(i, a + g) for i, (a, g) in enumerate(q)], timeout_s=TO)
+        bad = [i for i in out if out[i][0] != 'unsat']
+        st_ = 'unsat' if not bad else ('sat' if any(out[i][0] == 'sat' for i in bad) else 'unknown')
+        ck.obligation('IndexParser "%s": the index vector is exactly the sorted duplicate-free set denoted (%d paths)' % (text, len(q)), st_, sum(v[1] for v in out.values()), True, {'model': out[bad[0]][2]} if bad else None)
+        if st_ == 'sat': found.append((text, 'index vector is not the sorted duplicate-free denoted set', out[[i for i in bad if out[i][0] == 'sat'][0]][2], nph))
+    ck.bounds['IndexParser'] = 'indices in [0,%d] through placeholder tokens, forms %s' % (R, forms)
+    return found
+
 def compositions(n, k):
     if k == 1: yield (n,); return
     for i in range(n + 1):
@@ -238,20 +282,26 @@ def check_c18(ck, tier, replay=None):
     wd = common.workdir()
     ir, dt = common.compile_ir(common.harness_path(HARNESS), extra=['-I' + common.REPO])
     mod = llir.parse_module(ir)
-    ck.units += ['tools/src/libtools/tokenizer.cc (wildcmp)', 'tools/src/libtools/rangeparser.cc + tools/include/votca/tools/rangeparser.h (Parse, ParseBlock, iterator, operator<<)', 'tools/include/votca/tools/tokenizer.h (Tokenizer over boost::tokenizer)']
+    ck.units += ['xtp/src/libxtp/IndexParser.cc (CreateIndexVector)', 'tools/src/libtools/tokenizer.cc (wildcmp)', 'tools/src/libtools/rangeparser.cc + tools/include/votca/tools/rangeparser.h (Parse, ParseBlock, iterator, operator<<)', 'tools/include/votca/tools/tokenizer.h (Tokenizer over boost::tokenizer)']
     ck.functions.update(common.ir_func_sizes(mod, r'^@h_|wildcmp|RangeParser'))
     ck.assumptions += ['wildcmp: bit-precise (CBMC), inputs are NUL-terminated byte strings; reference = dynamic-programming glob matcher in harness/C18_wild_cbmc.c (validated against the native function on every run)',
                        'RangeParser: decimal conversion abstracted (strtol maps a placeholder token to a symbolic integer; operator<<(long) prints a placeholder); tokenising, validity test, block list, iterator and printing are the real code',
-                       'IndexParser and BeadList name: selection are outside this check']
+                       'IndexParser::CreateIndexVector is covered (digit conversion abstracted like for RangeParser); CreateIndexString and BeadList name: selection are outside this check']
     wf = wild(ck, mod, tier, wd)
     parsed = {}
     rf = ranges(ck, mod, tier, parsed)
+    try: xf = index_vectors(ck, mod, tier, {})
+    except Unsupported as e: ck.inconc('IndexParser: %s' % e); xf = []
     for k, tr, r in wf:
         pf, sf = wild_extract(tr, r)
         p = pf.split(b'\0')[0]; s = sf.split(b'\0')[0]
         meta = {'kind': 'wild', 'pattern': p.hex(), 'string': s.hex(), 'pattern_buffer': pf.hex(), 'string_buffer': sf.hex(), 'clause': k}
         rep = common.write_replay('C18', 'wild' + k + p.hex() + s.hex(), {}, meta); ok, why = replay_wild(meta)
         ck.violation('C18 wildcmp ' + ('mismatch' if k == 'equal' else 'over-read'), 'wildcmp(%r, %r): %s' % (p, s, why), rep, reproduced=ok)
+    for text, cls, mdl, nph in xf:
+        meta = {'kind': 'index', 'text': text, 'model': mdl, 'clause': cls}
+        rep = common.write_replay('C18', 'idx' + text + cls, {}, meta); ok, why = replay_index(meta)
+        ck.violation('C18 IndexParser vector', 'IndexParser %s: %s; %s' % (text, cls, why), rep, reproduced=ok)
     for text, cls, mdl, nph in rf:
         meta = {'kind': 'range', 'text': text, 'model': mdl, 'clause': cls}
         rep = common.write_replay('C18', text + cls, {}, meta); ok, why = replay_range(meta)
@@ -292,9 +342,22 @@ def replay_range(meta):
     bad = (not valid) or got != exp
     return bad, '"%s" enumerates %s, denotes %s' % (conc, got, exp if valid else 'nothing (invalid)')
 
+def replay_index(meta):
+    mdl = meta['model'] or {}; text = meta['text']
+    conc = re.sub(r'@(\d+)', lambda m: str(int(F(str(mdl.get('x' + m.group(1), '0'))))), text)
+    src = os.path.join(common.workdir(), 'idxrep.cc')
+    open(src, 'w').write('#include "%s"\n#include <cstdio>\nint main(int c,char**a){ long out[64]; long n=h_index_vec(a[1],out,64); printf("%%ld",n); for(long i=0;i<n;i++) printf(" %%ld",out[i]); printf("\\n"); }\n' % common.harness_path(HARNESS))
+    b = common.native_build([src], 'C18_idx', extra=['-I' + common.REPO], libs=common.votca_libs(False))
+    rc, so, se = common.run_native(b, args=[conc]); t = so.split(); got = [int(x) for x in t[1:]]
+    exp = set()
+    for tok in conc.split():
+        if ':' in tok: a_, b_ = [int(x) for x in tok.split(':')]; exp |= set(range(a_, b_ + 1))
+        else: exp.add(int(tok))
+    return got != sorted(exp), '"%s" gives %s, denotes %s' % (conc, got, sorted(exp))
+
 def do_replay(path):
     meta = json.load(open(os.path.join(path, 'input.json')))
-    ok, why = (replay_wild if meta['kind'] == 'wild' else replay_range)(meta)
+    ok, why = {'wild': replay_wild, 'range': replay_range, 'index': replay_index}[meta['kind']](meta)
     print('replay: %s (%s)' % ('reproduced' if ok else 'not reproduced', why))
     if ok: print('VIOLATION property=C18 replay=%s' % path); return 1
     return 0
